@@ -353,7 +353,7 @@ class HttpDataTransform:
                 if isinstance(step_val, bytes):
                     step_val = len(step_val)
                 assert isinstance(step_val, int)
-                data = data[:-step_val]
+                data = data[: max(len(data) - step_val, 0)]
             elif step == "prepend":
                 if isinstance(step_val, bytes):
                     step_val = len(step_val)
